@@ -1,10 +1,11 @@
-INIT Init
+INIT XInit
 NEXT XNext
 CONSTANTS
   Outcome <- FirstOccurrence
   Kinds <- MCKinds
   NV <- MCNV
   MaxOcc = 2
+  MaxCalls = 1
   Conv <- MCConv
   Bounds <- MCBounds
 INVARIANT GetterNeverMisreports
@@ -15,3 +16,4 @@ INVARIANT HasParamExact
 INVARIANT PresentProtocol
 INVARIANT StoreOnlyOnSuccess
 INVARIANT LastOccurrenceOnly
+INVARIANT HistoryFree
